@@ -12,7 +12,8 @@ EXPLANATION = (
     "side it is pushed into and not by the other side); (R3) filters are pushed into join sides only while every join "
     "the front ends build is Inner or Cross (otherwise the optimizer must test the join type); (R5) the variable collectors "
     "behind those scope tests visit every sub-expression field of every expression kind; (R4, informational) the "
-    "join-reorder collector keeps filter wrappers of its relations. (R6) the operator-level collector behind the join-side test visits every child operator of every operator kind (scope-resetting operators excepted with reasons). "
+    "join-reorder collector keeps filter wrappers of its relations. R5 also: the visit of a child does not hinge on a sibling field. "
+    "(R6) the operator-level collector behind the join-side test visits every child operator of every operator kind (scope-resetting operators excepted with reasons). "
     "Semantic equivalence of plans is not decided.")
 ASSUMPTIONS = ["variant names of LogicalOperator / JoinType identify operator kinds"]
 
